@@ -756,12 +756,15 @@ pub fn run_faults<C: KeyColl>(tr: &mut Trace, paths: &[(usize, Vec<KOp>)], keys:
 pub fn run_scale<C: KeyColl>(tr: &mut Trace, seed: u64, rounds: &str, deep: i32) {
     let mut rng = Rng::new(seed);
     let mut s: KeySession<C> = KeySession::new(tr, 8, 0, 0);
+    // all four query forms for every probe; which form comes first rotates with the time and the
+    // probe, so that each of them gets to be the call that meets a freshly expired entry
     let probes = |s: &mut KeySession<C>, t: i32, hi: i32| {
         for p in 0..=hi {
-            s.apply(&KOp::Le { t, p }, 0);
-            s.apply(&KOp::Lt { t, p }, 0);
-            s.apply(&KOp::Get { t, k: p }, 0);
-            s.apply(&KOp::By { t, th: 2 * p + 1 }, 0);
+            let ops = [KOp::Le { t, p }, KOp::Lt { t, p }, KOp::Get { t, k: p }, KOp::By { t, th: 2 * p + 1 }];
+            let r = (t + p).rem_euclid(4) as usize;
+            for i in 0..4 {
+                s.apply(&ops[(r + i) % 4], 0);
+            }
         }
     };
     if rounds.contains('S') {
@@ -785,9 +788,10 @@ pub fn run_scale<C: KeyColl>(tr: &mut Trace, seed: u64, rounds: &str, deep: i32)
             let v = s.next_value(m + 1, 1000);
             s.apply(&KOp::Ins { k: m + 1, e: 1000, v, t: 0 }, 0);
             s.apply(&KOp::Get { t: 1, k: m / 2 + 1 }, 0);
-            s.apply(&KOp::Le { t: 10, p: m }, 0);
-            s.apply(&KOp::Get { t: 10, k: m + 1 }, 0);
-            s.apply(&KOp::Lt { t: 10, p: m + 2 }, 0);
+            let after = [KOp::Le { t: 10, p: m }, KOp::Get { t: 10, k: m + 1 }, KOp::Lt { t: 10, p: m + 2 }, KOp::Get { t: 10, k: m / 2 }];
+            for i in 0..4 {
+                s.apply(&after[(n as usize + i) % 4], 0);
+            }
             s.apply(&KOp::Clear, 0);
         }
     }
